@@ -37,7 +37,7 @@ def check(run):
         ln = rng.choice([1, 2, 3, 5, 8, 13, 21, 40])
         cases.append(("random-bytes", bytes(rng.randrange(256) for _ in range(ln))))
     cases += C.systematic_codes()
-    cases += C.literal_operand_codes(huge_exp=True) + C.HARD_CODES
+    cases += C.literal_operand_codes(huge_exp=True) + C.HARD_CODES + C.long_block_codes()
     cases.append(("exp", bytes.fromhex("6003600a0a56")))
     cases.append(("exp-symbolic", bytes.fromhex("0a565b00")))
     cases.append(("mulmod-symbolic", bytes.fromhex("09565b00")))
